@@ -126,6 +126,24 @@ def r21(repo, ctx):
                 ctx.check(ok, 'R2.1', EULER, q, node, 'mean radius = first moment / zeroth moment of the distribution passed in',
                           f'mean radius is not first moment / number density ({U.src(node.value)})')
     ctx.floor('R2.1', min(found.values()), 1)
+    # every moment used by the mass balance is taken of the distribution passed in (x[p]), never of the stored one:
+    # the stored distribution is replaced only later in postProcess, so PBM.ThirdMoment() here is last step's
+    nm = 0
+    for c in U.calls(loop):
+        last = (U.call_name(c) or '').split('.')[-1]
+        if 'Moment' not in last:
+            continue
+        recv = c.func.value if isinstance(c.func, ast.Attribute) else None
+        rc = U.chain(inline(recv, defs)) if recv is not None else None
+        if not rc or rc[:3] != ('self', 'PBM', '[]'):
+            continue
+        nm += 1
+        a0 = inline(c.args[0], defs) if c.args else None
+        ctx.check(last.endswith('FromN') and a0 is not None and is_xp(a0), 'R2.1', EULER, q, c,
+                  f'{last} is evaluated on the distribution passed in',
+                  f'{last}({U.src(c.args[0]) if c.args else ""}) takes the moment of the distribution stored in the population balance, which is still that of the previous step: '
+                  'the statistic recorded for this step lags the distribution it is recorded with', construct=U.src(c))
+    ctx.floor('R2.1/moments', nm, 4)
     # empty-phase record: the branch taken below the density threshold rewrites every statistic slot with zero
     # (whether it leaves by `continue` or is the if-side of an if/else), and every path through the body recomputes
     exits = body_paths(ctx, loop)
@@ -267,6 +285,8 @@ def check(repo, ctx, index, purity):
     F1 = C07.r71_r73(repo, sub, 'getdXdtEuler', g, True)
     if F1 is not None:
         C07.r72(repo, sub, g, F1)
+    g2 = repo.func(PB, 'PopulationBalanceModel.correctdXdtEuler')
+    C07.r71_r73(repo, sub, 'correctdXdtEuler', g2, False)
     for fnd in sub.findings:
         fnd.rule = 'R2.3/' + fnd.rule
         ctx.findings.append(fnd)
